@@ -567,6 +567,21 @@ fn struct_cases(files: &BTreeMap<u64, FileImg>, rng: &mut Rng, count: usize, out
         vec![Op::Add(Extra::File { name: wal_name(last + 1), content: fake_header_block(rng) })],
         vec![Op::Add(Extra::File { name: wal_name(last + 2), content: garbage(rng, 4 * BLOCK) })],
     ];
+    // no WAL file at all, and the name of the first one taken by something that is not a regular file
+    {
+        let wipe: Vec<Op> = numbers.iter().map(|number| Op::RemoveFile { file: *number }).collect();
+        fixed.push(wipe.clone());
+        for extra in [
+            Extra::Dir { name: wal_name(0) },
+            Extra::Symlink { name: wal_name(0), target: b"does-not-exist".to_vec() },
+            Extra::Symlink { name: wal_name(0), target: b"notes.txt".to_vec() },
+        ] {
+            let mut ops = wipe.clone();
+            ops.push(Op::Add(Extra::File { name: b"notes.txt".to_vec(), content: b"hello".to_vec() }));
+            ops.push(Op::Add(extra));
+            fixed.push(ops);
+        }
+    }
     // files LONGER than a WAL file: whole extra blocks (a copy of the first block of the log, of the
     // file's own last block, garbage, zeros), a fraction of a block, many blocks - on the newest
     // file, on the oldest, and on the file that becomes the newest once the newest is removed
